@@ -7,8 +7,9 @@
      node.py            Node(label=, parent=) construction
    The functions follow the Python statement by statement, in source order, so that
    a state left behind by an exception raised half way is the state the code leaves.
-   Node identities are [nat], labels are [string]s (the cyclic test is a string-prefix
-   test on paths and is modelled as written).  Stdlib only. *)
+   Node identities are [nat], labels are [string]s (suffixing and lexical_path are string
+   arithmetic); the cyclic test walks the parent pointers looking for the child object
+   itself.  Stdlib only. *)
 From PW Require Import Base.
 From Coq Require Import DecimalString Ascii.
 Open Scope nat_scope.
@@ -95,7 +96,7 @@ Variable kindof : nat -> kind.                 (* class of each object *)
 Variable strictof : nat -> bool.               (* composite.strict_naming *)
 Variable reserved : kind -> string -> bool.    (* label in dir(composite), children aside *)
 Variable N : nat.                              (* objects 0..N-1 are observed *)
-Variable pfuel : nat.                          (* bound for path recursion / suffix search *)
+Variable pfuel : nat.                          (* bound for the ancestor walk, the suffix search, lexical_path *)
 
 Definition is_comp (n : nat) : bool := match kindof n with Leaf => false | _ => true end.
 Definition is_wf (n : nat) : bool := match kindof n with Wf => true | _ => false end.
@@ -114,12 +115,25 @@ Fixpoint path (g : nat) (s : state) (n : nat) : option string :=
       end
   end.
 
-(* _ensure_path_is_not_cyclic(parent, child); None = passes *)
-Definition cyclic (s : state) (p c : nat) : option err :=
-  if p =? c then Some ECyclic else
-  match path pfuel s p, path pfuel s c with
-  | Some pp, Some pc => if prefix (pc +++ "/") pp then Some ECyclic else None
-  | _, _ => Some ERecursion
+(* _ensure_path_is_not_cyclic(parent, child): walk from [a] up the parents looking for the
+   object [c] itself.  Some true = found, Some false = reached a root, None = bound g hit
+   (a cyclic parent chain: the Python loop would not end) *)
+Fixpoint walk (g : nat) (s : state) (a : option nat) (c : nat) : option bool :=
+  match a with
+  | None => Some false
+  | Some x =>
+      match g with
+      | 0 => None
+      | S g' => if x =? c then Some true else walk g' s (par s x) c
+      end
+  end.
+
+(* None = passes *)
+Definition cyclic (s : state) (a : option nat) (c : nat) : option err :=
+  match walk pfuel s a c with
+  | Some true => Some ECyclic
+  | Some false => None
+  | None => Some ERecursion
   end.
 
 (* label in self.__dir__() *)
@@ -158,33 +172,44 @@ Definition already_here (s : state) (p c : nat) (l : string) : bool + err :=
 Definition sp_body (RC : state -> nat -> string + nat -> state * result)
                    (AC : state -> nat -> nat -> option string -> option bool -> state * result)
                    (s : state) (c : nat) (np : option nat) : state * result :=
-  if is_wf c then                                     (* Workflow.parent setter *)
+  if is_wf c then                                     (* Workflow.parent setter = Workflow._check_parent *)
     match np with None => (s, Ok) | Some _ => (s, Err EParentMost) end
   else if oeqb np (par s c) then (s, Ok)              (* new_parent is self._parent *)
-  else if (match np with Some q => negb (is_comp q) | None => false end) then (s, Err EValue)
+  else if (match np with Some q => negb (is_comp q) | None => false end) then (s, Err EValue)   (* _check_parent *)
   else
-    match (match np with Some q => cyclic s q c | None => None end) with
+    match cyclic s np c with
     | Some e => (s, Err e)
     | None =>
-      let '(s1, r1) :=                                (* release from the old parent *)
-        match par s c with
-        | Some o => if val_mem c (kids s o) then RC s o (inr c) else (s, Ok)
-        | None => (s, Ok)
-        end in
-      match r1 with
-      | Err e => (s1, Err e)
-      | _ =>
-        let s2 := set_par s1 c np in                  (* self._parent = new_parent *)
-        match np with
-        | None => (s2, Ok)
-        | Some q => AC s2 q c None None               (* self._parent.add_child(self) *)
+      (* fail before mutating anything: the new parent must accept our label *)
+      match (match np with
+             | Some q => if val_mem c (kids s q) then None
+                         else match unique_label s q (lbl s c) (strictof q) with inr e => Some e | inl _ => None end
+             | None => None
+             end) with
+      | Some e => (s, Err e)
+      | None =>
+        let '(s1, r1) :=                                (* release from the old parent *)
+          match par s c with
+          | Some o => if val_mem c (kids s o) then RC s o (inr c) else (s, Ok)
+          | None => (s, Ok)
+          end in
+        match r1 with
+        | Err e => (s1, Err e)
+        | _ =>
+          let s2 := set_par s1 c np in                  (* self._parent = new_parent *)
+          match np with
+          | None => (s2, Ok)
+          | Some q => AC s2 q c None None               (* self._parent.add_child(self) *)
+          end
         end
       end
     end.
 
 Definition ac_body (SP : state -> nat -> option nat -> state * result)
                    (s : state) (p c : nat) (lb : option string) (sn : option bool) : state * result :=
-  match cyclic s p c with
+  if is_wf c then (s, Err EParentMost)                (* child._check_parent(self) *)
+  else
+  match cyclic s (Some p) c with
   | Some e => (s, Err e)
   | None =>
     if (match par s c with Some o => negb (o =? p) | None => false end) then (s, Err EValue)
@@ -200,15 +225,14 @@ Definition ac_body (SP : state -> nat -> option nat -> state * result)
         | inl l' =>
           if has_slash l' then (s, Err EValue)        (* child._check_label(label) *)
           else
-            let pop := oeqb (par s c) (Some p) && negb (String.eqb l' (lbl s c)) in
-            if pop && negb (val_mem c (kids s p)) then (s, Err EKey)
-            else
-              let s1 := if pop then set_kids s p (val_pop c (kids s p)) else s in
-              let s2 := set_lbl s1 c l' in            (* child.label = label *)
-              match bd_put l' c (kids s2 p) with      (* self.children[child.label] = child *)
-              | inr e => (s2, Err e)
-              | inl ch => SP (set_kids s2 p ch) c (Some p)   (* child.parent = self *)
-              end
+            (* child in self.children.inv and label != child.label *)
+            let pop := val_mem c (kids s p) && negb (String.eqb l' (lbl s c)) in
+            let s1 := if pop then set_kids s p (val_pop c (kids s p)) else s in
+            let s2 := set_lbl s1 c l' in              (* child.label = label *)
+            match bd_put l' c (kids s2 p) with        (* self.children[child.label] = child *)
+            | inr e => (s2, Err e)
+            | inl ch => SP (set_kids s2 p ch) c (Some p)   (* child.parent = self *)
+            end
         end
       end
   end.
@@ -255,7 +279,10 @@ Definition rp (f : nat) (s : state) (p : nat) (x : string + nat) (r : nat) : sta
   | Some o =>
     if negb (oeqb (par s o) (Some p)) then (s, Err EValue)
     else if negb (oeqb (par s r) None) then (s, Err EValue)
-    else
+    else if is_wf r then (s, Err EParentMost)           (* replacement_node._check_parent(self) *)
+    else match cyclic s (Some p) r with                 (* _ensure_path_is_not_cyclic(self, replacement_node) *)
+    | Some e => (s, Err e)
+    | None =>
       let is_st := memn o (strt s p) in
       let '(s1, r1) := rc f s p (inr o) in
       match r1 with
@@ -268,6 +295,7 @@ Definition rp (f : nat) (s : state) (p : nat) (x : string + nat) (r : nat) : sta
         | _ => ((if is_st then set_strt s3 p (strt s3 p ++ [r]) else s3), Ok)
         end
       end
+    end
   end.
 
 (* is object c free to be thrown away and built anew?  (harness-level guard of NewNode) *)
@@ -295,7 +323,7 @@ Definition step (f : nat) (s : state) (o : op) : state * result :=
         if has_slash l then (s, Err EValue)
         else
           let '(s1, r1) := sp f (set_lbl s c l) c (Some p) in
-          match r1 with Err e => (s, Err e) | _ => (s1, r1) end   (* the failed object is garbage *)
+          match r1 with Ok => (s1, Ok) | _ => (s, r1) end   (* the failed object is garbage *)
       else (s, Skip)
   | SetParent c np =>
       (* a composite's attribute assignment goes through Composite.__setattr__ *)
@@ -369,58 +397,6 @@ Record Inv (s : state) : Prop := mkInv {
   (* every label passed _check_label *)
   inv_slash : forall n, has_slash (lbl s n) = false
 }.
-
-(* the two states are indistinguishable *)
-Definition same (s s' : state) : Prop :=
-  (forall n, lbl s n = lbl s' n) /\ (forall n, par s n = par s' n) /\
-  (forall n, kids s n = kids s' n) /\ (forall n, strt s n = strt s' n).
-
-(* Guards of the _partial theorems = cause predicates of the known findings K1..K4. *)
-(* K1: c.parent = q, q not yet c's parent, q already has an attribute or child called like c *)
-Definition risky_assign (s : state) (c q : nat) : bool :=
-  negb (is_wf c) && negb (oeqb (Some q) (par s c)) && in_dir s q (lbl s c).
-(* K2: a workflow is offered as a child; K4: an orphan ends up with a label l' such that
-   "/l'/" is a prefix of the adopting composite's path *)
-Definition risky_adopt (s : state) (p c : nat) (l : string) (st : bool) : bool :=
-  is_wf c ||
-  (oeqb (par s c) None &&
-   match unique_label s p l st, path pfuel s p with
-   | inl l', Some pp => prefix ("/" +++ l' +++ "/") pp
-   | _, _ => false
-   end).
-(* K2 / K3: the replacement is a workflow, the composite itself or path-prefix related to it,
-   or the replaced child's label heads the composite's path *)
-Definition risky_replace (s : state) (p o r : nat) : bool :=
-  is_wf r || (match cyclic s p r with Some _ => true | None => false end) ||
-  match path pfuel s p with Some pp => prefix ("/" +++ lbl s o +++ "/") pp | None => false end.
-
-Definition risky (s : state) (o : op) : bool :=
-  match o with
-  | AddChild p c lb sn =>
-      is_comp p && risky_adopt s p c (match lb with Some l => l | None => lbl s c end)
-                               (match sn with Some b => b | None => strictof p end)
-  | SetAttr p k c =>
-      is_comp p &&
-      (if is_comp c && String.eqb k "parent" then risky_assign s p c
-       else if is_comp c && String.eqb k "_parent" then false
-       else risky_adopt s p c k (strictof p))
-  | SetParent c (Some q) =>
-      if is_comp c && negb (is_comp q) then risky_adopt s c q "parent" (strictof c)
-      else risky_assign s c q
-  | ReplaceI p o r => is_comp p && risky_replace s p o r
-  | ReplaceL p l r =>
-      is_comp p && match key_get l (kids s p) with Some o => risky_replace s p o r | None => false end
-  | _ => false
-  end.
-
-Definition is_rec (r : result) : bool := match r with Err ERecursion => true | _ => false end.
-
-(* every operation of the history is outside the guards and within the fuel *)
-Fixpoint safe (f : nat) (s : state) (ops : list op) : bool :=
-  match ops with
-  | [] => true
-  | o :: r => negb (risky s o) && negb (is_rec (snd (step f s o))) && safe f (fst (step f s o)) r
-  end.
 
 End Lex.
 
